@@ -288,6 +288,26 @@ pub fn run_workload(sub: u64, acc: &mut Acc, ctx: &Ctx, _thorough: bool) {
     let mut env: Vec<(String, String)> = vec![];
     let mut path_prefix = None;
     let scripts: Vec<String> = files.iter().filter(|f| f.through_child).map(|f| format!("{}={}", f.path.rsplit('/').next().unwrap(), script_for(f, &shadow))).collect();
+    // Sometimes a further, explicitly named path: a symbolic link to a regular file, handled by a
+    // command that filters its standard input (rg connects the file to it) instead of opening
+    // the path it is given.
+    let mut scripts = scripts;
+    for d in [scratch.join("x"), shadow.join("x")] {
+        let _ = std::fs::remove_dir_all(&d);
+    }
+    let stdin_link = w.kind == "pre" && sub % 4 == 1;
+    if stdin_link {
+        std::fs::create_dir_all(scratch.join("x")).unwrap();
+        std::fs::create_dir_all(shadow.join("x")).unwrap();
+        let mut r2 = Rng::new(sub ^ 0x57D1);
+        let n = 1 + r2.below(30);
+        let text = gen_text(&mut r2, n, 3);
+        std::fs::write(scratch.join("x/real.txt"), &text).unwrap();
+        std::os::unix::fs::symlink("real.txt", scratch.join("x/link.txt")).unwrap();
+        std::fs::write(shadow.join("x/link.txt"), &text).unwrap();
+        scripts.push("link.txt=catstdin".into());
+        acc.faults.inc("child:filters-its-standard-input(symlinked file)");
+    }
     env.push(("CHILDSTUB_SCRIPTS".into(), scripts.join(";")));
     env.push(("CHILDSTUB_STRICT".into(), "1".into()));
     match w.kind.as_str() {
@@ -347,6 +367,9 @@ pub fn run_workload(sub: u64, acc: &mut Acc, ctx: &Ctx, _thorough: bool) {
     let harmless = gen_harmless_flags(&mut Rng::new(sub ^ 0xF1A6), &["-i", "-S"]);
     args.extend(harmless.iter().cloned());
     args.extend(["foo".into(), "w".into()]);
+    if stdin_link {
+        args.push("x/link.txt".into());
+    }
     // reads on the child's pipes (stdout by rg's main thread, stderr by its drain thread) are
     // sometimes answered EINTR at a seeded index and cut into small pieces: both only ask for a retry
     let mut prng = Rng::new(sub ^ 0x919E);
@@ -360,6 +383,9 @@ pub fn run_workload(sub: u64, acc: &mut Acc, ctx: &Ctx, _thorough: bool) {
     let mut sargs = base.clone();
     sargs.extend(gen_harmless_flags(&mut Rng::new(sub ^ 0xF1A6), &["-i", "-S"]));
     sargs.extend(["foo".into(), "w".into()]);
+    if stdin_link {
+        sargs.push("x/link.txt".into());
+    }
     let shadow_spec = RunSpec { args: sargs, ..RunSpec::default() };
     // files that contribute nothing: spawn failures and children that fail before output
     let spawn_fails = w.kind == "pre-missing" || w.kind == "pre-notexec";
@@ -436,7 +462,7 @@ pub fn run_workload(sub: u64, acc: &mut Acc, ctx: &Ctx, _thorough: bool) {
                         }
                         fresh = true;
                     } else if fresh {
-                        if !l.starts_with(b"w/") {
+                        if !l.starts_with(b"w/") && !l.starts_with(b"x/") {
                             return None;
                         }
                         v.push((l.to_vec(), vec![]));
